@@ -229,8 +229,10 @@ def replay(payload):
     inp = payload['input']
     ex = grammar.build(pc.DIALECTS[inp['dialect']])
     if inp.get('expect_structure'):
-        g, m, _ = pc.gen_module_text(inp['gen_seed'], wild=False, nasty=inp.get('nasty', False))
-        a = pc.impl_parse(ex, inp['text'])
+        # the record of what was printed comes from the generator; should the generator have changed since the input was
+        # stored, the text is regenerated with it so that text and record always belong together
+        g, m, regenerated = pc.gen_module_text(inp['gen_seed'], wild=False, nasty=inp.get('nasty', False))
+        a = pc.impl_parse(ex, regenerated)
         if 'ast' not in a:
             return {'fails': True, 'impl': a}
         try:
